@@ -68,7 +68,7 @@ def apply(S, ev: dict, mag: int = 0):
         v = float(rv["val"])
         r = {"default": float, "swapped": (np.int64 if v.is_integer() else np.float64),
              # (a quotient by a float32 scalar is rounded to float32 by numpy's own promotion rules: float64 there)
-             "strided": (np.float64 if op in ("div", "rdiv") else np.float32), "grown": (int if v.is_integer() else float)}[bind.get_layout()](v)
+             "strided": (np.float64 if op in ("div", "rdiv") else np.float32), "grown": ((np.uint8 if v >= 0 else int) if v.is_integer() else float)}[bind.get_layout()](v)
     else:
         r = bind.gamma(rv)
     if mag and op in SCALE_FREE and S.vals.dtype.kind == "f":
